@@ -44,6 +44,8 @@ def check_scan(chk, rep0, repo, pre="", only=None):
     rep.fn("SCAN-shared", semi, "SemiSupervisedOPF.predict is SupervisedOPF.predict", semi.fq == sup.fq,
            "semi-supervised prediction is a different function (not analysed by this rule set)")
     w = model_walk(repo, "SupervisedOPF", "predict")
+    from ..common import require_scalar_fragment
+    require_scalar_fragment(w, "SupervisedOPF.predict")
     fn = w.entry
     G = ("attr", ("self",), "subgraph")
     scans = []
@@ -182,6 +184,10 @@ def check_scan(chk, rep0, repo, pre="", only=None):
     for cls in ("SupervisedOPF", "SemiSupervisedOPF"):
         _, comps = competitions_of(repo, cls, "fit", 2)
         check_removal_bookkeeping(rep, f"{cls}:", comps[-1])
+    # ... and the order scanned belongs to the forest scanned: learn() must leave ONE fitted model in the object (nodes and
+    # their removal order from the same fit), not parts of two
+    from ..common import check_learn_state_premise
+    check_learn_state_premise(rep0, repo)
     # the order scanned is sorted by cost only if the queue that produced it returns minima
     from ..rules_heap import check_heap
     check_heap(rep, repo, "HEAP-")
